@@ -14,7 +14,7 @@ from __future__ import annotations
 import ast
 
 from ..cfg import ENTRY, EXIT, header_parts
-from ..flow import Defs, all_merges, inline_predicates, iterations, nnf, reordered
+from ..flow import Defs, all_merges, guard_facts, inline_predicates, iterations, nnf, reordered
 from ..loader import FuncInfo, dotted, norm, walk_no_nested
 from ..report import Ctx
 from ..selftest import Mutant
@@ -73,6 +73,12 @@ def rule_foreign_key(ctx: Ctx) -> None:  # noqa: C901
                 while id(x) in par and x is not loop:
                     child, x = x, par[id(x)]
                     if isinstance(x, ast.If) and child in x.body and norm(x.test) == f"{var} in {d}":
+                        guarded = True
+                if not guarded:
+                    # the same test as an early `continue` / conjunct: facts that control the statement in the flow graph
+                    cfg_ = ctx.cfg(fn)
+                    cn = cfg_.node_containing(sub)
+                    if cn is not None and any(t == f"{var} in {d}" and pol for t, pol in guard_facts(cfg_, Defs(fn), cn)):
                         guarded = True
                 ctx.add("2-foreign-key", fn, sub, guarded, f"`{d}[{var}]` is read under `if {var} in {d}`" if guarded else
                         f"`{d}[{var}]`: `{var}` iterates `{norm(loop.iter)}`, not `{d}`; a valid spec whose name is absent from `{d}` is refused with KeyError at construction", key=f"{d}[{var}] in {fn.name}")
